@@ -14,7 +14,8 @@ PT = "pel.peltool."
 PUD = PT + "parse_user_data."
 ModSort = z3.DeclareSort('Module')
 
-RAISES = [(Exception, ("boom",)), (ImportError, ("lazy import failed",)), (AssertionError, ()), (KeyError, ("k",))]
+RAISES = [(Exception, ("boom",)), (ImportError, ("lazy import failed",)), (AssertionError, ()), (KeyError, ("k",)),
+          (ModuleNotFoundError, ("No module named 'optional_dependency'",))]
 
 
 def mod_of(name):
